@@ -34,6 +34,8 @@ import (
 	"verifsim/uni"
 )
 
+var hookOnce sync.Once
+
 // source is a harness-owned subscription source.
 type source struct {
 	ch      reflect.Value // bidirectional chan
@@ -119,10 +121,10 @@ func Run(rc *core.RunCtx) {
 	})
 
 	// lock grants: which goroutine wins a contended transport mutex is a tape decision
-	transport.SimLockHook = func(free func() bool) {
-		w.Park("lock", core.GoroutineRole(), free)
-	}
-	defer func() { transport.SimLockHook = nil }()
+	core.SetCurrent(w)
+	hookOnce.Do(func() {
+		transport.SimLockHook = func(free func() bool) { core.ParkLock(core.GoroutineRole(), free) }
+	})
 
 	ctx, cancel := context.WithCancel(context.Background())
 	defer cancel()
